@@ -200,6 +200,10 @@ def rule_b(ctx):
     ctx.floor(R, 2)
 
 
+def self_attr_(t):
+    return t.attr if isinstance(t, ast.Attribute) and isinstance(t.value, ast.Name) and t.value.id == "self" else None
+
+
 def rule_c(ctx):
     R = "C13.c"
     ctx.rule(R, "the probe is not modified: the working image is a deep copy of the probe on every path, no mutation event is rooted at the "
@@ -220,6 +224,21 @@ def rule_c(ctx):
     init = m.method(k, "__init__")
     b = [norm(s.value) for s in ast.walk(init.node) if isinstance(s, ast.Assign) and norm(s.targets[0]) == "self.base" and norm(s.value) != "None"]
     ctx.ob(R, init.qname, "baseline is stored as a copy", b == ["base[0].copy()"], str(b), init.node)
+    # the baseline and the collection used for the cleaning filter are taken from the same (float-converted) list:
+    # the same definitions of the list reach both stores (reaching definitions over the constructor's CFG)
+    from .. import cfg as C
+
+    g = C.CFG(init.node)
+    RD, _ = C.reaching_definitions(g, init.params)
+    sites = {}
+    for nd in g.nodes:
+        if nd.kind == "stmt" and isinstance(nd.stmt, ast.Assign) and self_attr_(nd.stmt.targets[0]) in ("base", "_base_collection") and norm(nd.stmt.value) != "None":
+            names = [x.id for x in ast.walk(nd.stmt.value) if isinstance(x, ast.Name) and x.id in init.params]
+            if names:
+                sites[self_attr_(nd.stmt.targets[0])] = (nd, sorted(i for nme, i in RD.get(nd.id, ()) if nme == names[0]))
+    ok = set(sites) == {"base", "_base_collection"} and sites["base"][1] == sites["_base_collection"][1]
+    ctx.ob(R, init.qname, "self.base and self._base_collection are taken from the same definitions of the baseline list (after the float conversion)", ok,
+           str({k_: [g.nodes[i].text()[:50] for i in v[1]] for k_, v in sites.items()}), init.node)
     ctx.floor(R, 1)
 
 
@@ -249,3 +268,8 @@ def run(ctx):
     rule_b(ctx)
     rule_c(ctx)
     rule_d(ctx)
+    # the result is type(probe)(array, **probe.metadata()): it carries the probe's metadata only if metadata() -> constructor is a faithful round trip (C18.a)
+    from . import c18
+    from .common import shared
+
+    shared(ctx, "C13.d", c18.rule_a, why="the result image is constructed from probe.metadata(); every key must round-trip through the constructor unchanged")
